@@ -8,7 +8,9 @@ import XPathV.Lemmas.StringFns.Nested
 
 `Theorems/C07.lean` holds the per-cell facts for the cells the property lists.  This file
 
-1. adds the missing cells of the dispatch matrix (node-set/string, number/string, boolean/anything),
+1. adds the boolean cells of the dispatch matrix (`cell_boolAny`, `cell_anyBool`: all six operators
+   since the repair of `cmpBooleanAny`/`cmpAnyBoolean`) and assembles all sixteen cells into
+   `cmpM_emb_cell` / `cmpM_vrel` — no type pair and no operator excluded,
 2. states `and`/`or` (with short-circuit) and `not()`/`boolean()`/`true()`/`false()` at the
    `evalP` level,
 3. assembles them into a theorem about comparison expressions over literals and predicate-free
@@ -29,110 +31,88 @@ variable {F : Type} [NumAlg F]
 
 /-! ## 1. The remaining cells of the comparison matrix -/
 
+/-! The cells with a string operand and the node-set/node-set cell hold for **all six** operators
+since the repairs of `cmpStringStringF`, `cmpNodeSetString` and `cmpStringNumeric`
+(`Theorems.C07.cell_strStr`, `cell_strNum`, `cell_numStr`, `cell_setStr`, `cell_strSet`,
+`cell_setSet` in `Lemmas/C07Base.lean`).  The `_eq` / `_ne` statements below are the former ones
+(they were restricted to `=` / `!=` because the engine compared strings lexically and handed
+`cmpNodeSetString` its operands in reverse), kept as corollaries.  `cell_strNum_swapped` (the engine's
+value for string/number was the oracle's for the *swapped* operands) and the two
+`cell_strNum_*_of_symm` (string/number `=`/`!=` under a symmetry hypothesis on `NumAlg.eq`) are gone:
+`Theorems.C07.cell_strNum` holds for all six operators without hypothesis. -/
+
 /-- node-set vs string, `=` -/
 theorem cell_setStr_eq (d : Doc) (l : List Ref) (s : String) :
-    cmpM (F := F) d .eq (.nodes l) (.str s) = .ok (Spec.compare (F := F) d .eq (.nodes l) (.str s)) := by
-  simp only [cmpM, xtypeOf, Spec.compare, Spec.cmpAtom, Spec.CmpOp.isRel, Spec.toStr, cmpStrF, bind,
-    Except.bind, pure, Except.pure]
-  simp only [Bool.false_eq_true, ↓reduceIte, BEq.rfl, Except.ok.injEq]
-  congr 1; funext x; exact BEq.comm
+    cmpM (F := F) d .eq (.nodes l) (.str s) = .ok (Spec.compare (F := F) d .eq (.nodes l) (.str s)) :=
+  Theorems.C07.cell_setStr d .eq l s
 
 /-- node-set vs string, `!=` -/
 theorem cell_setStr_ne (d : Doc) (l : List Ref) (s : String) :
-    cmpM (F := F) d .ne (.nodes l) (.str s) = .ok (Spec.compare (F := F) d .ne (.nodes l) (.str s)) := by
-  simp only [cmpM, xtypeOf, Spec.compare, Spec.cmpAtom, Spec.CmpOp.isRel, Spec.toStr, cmpStrF, bind,
-    Except.bind, pure, Except.pure]
-  simp only [Bool.false_eq_true, ↓reduceIte, Except.ok.injEq]
-  congr 1; funext x
-  show (s != stringValue d x) = !(stringValue d x == s)
-  rw [bne, BEq.comm]
+    cmpM (F := F) d .ne (.nodes l) (.str s) = .ok (Spec.compare (F := F) d .ne (.nodes l) (.str s)) :=
+  Theorems.C07.cell_setStr d .ne l s
 
 /-- string vs node-set, `=` -/
 theorem cell_strSet_eq (d : Doc) (s : String) (l : List Ref) :
-    cmpM (F := F) d .eq (.str s) (.nodes l) = .ok (Spec.compare (F := F) d .eq (.str s) (.nodes l)) := by
-  simp [cmpM, xtypeOf, Spec.compare, Spec.cmpAtom, Spec.CmpOp.isRel, Spec.toStr, cmpStrF, bind,
-    Except.bind, pure, Except.pure]
+    cmpM (F := F) d .eq (.str s) (.nodes l) = .ok (Spec.compare (F := F) d .eq (.str s) (.nodes l)) :=
+  Theorems.C07.cell_strSet d .eq s l
 
 /-- string vs node-set, `!=` -/
 theorem cell_strSet_ne (d : Doc) (s : String) (l : List Ref) :
-    cmpM (F := F) d .ne (.str s) (.nodes l) = .ok (Spec.compare (F := F) d .ne (.str s) (.nodes l)) := by
-  simp [cmpM, xtypeOf, Spec.compare, Spec.cmpAtom, Spec.CmpOp.isRel, Spec.toStr, cmpStrF, bind,
-    Except.bind, pure, Except.pure, bne]
-
-/-- number vs string: the string is converted with `number()`; holds for all six operators (the
-operands are passed in order) -/
-theorem cell_numStr (d : Doc) (op : Spec.CmpOp) (a : F) (s : String) :
-    cmpM d op (.num a) (.str s) = .ok (Spec.compare d op (.num a) (.str s)) := by
-  cases op <;> simp [cmpM, xtypeOf, Spec.compare, Spec.cmpAtom, Spec.CmpOp.isRel, Spec.toNum,
-    Spec.cmpNum, goParseFloat, bind, Except.bind, pure, Except.pure]
-
-/-- string vs number: `cmpStringNumeric` passes the operands *swapped*; what holds definitionally
-(all six operators) is the oracle's value for the swapped operands -/
-theorem cell_strNum_swapped (d : Doc) (op : Spec.CmpOp) (s : String) (b : F) :
-    cmpM d op (.str s) (.num b) = .ok (Spec.compare d op (.num b) (.str s)) := by
-  cases op <;> simp [cmpM, xtypeOf, Spec.compare, Spec.cmpAtom, Spec.CmpOp.isRel, Spec.toNum,
-    Spec.cmpNum, goParseFloat, bind, Except.bind, pure, Except.pure]
-
-/-- string vs number, `=`: the oracle's value as soon as `NumAlg.eq` is symmetric on the two
-operands (true of IEEE `==`, not assumed by `NumAlg`) -/
-theorem cell_strNum_eq_of_symm (d : Doc) (s : String) (b : F)
-    (hsym : NumAlg.eq b (Spec.strToNum s : F) = NumAlg.eq (Spec.strToNum s : F) b) :
-    cmpM d .eq (.str s) (.num b) = .ok (Spec.compare d .eq (.str s) (.num b)) := by
-  simp [cmpM, xtypeOf, Spec.compare, Spec.cmpAtom, Spec.CmpOp.isRel, Spec.toNum,
-    Spec.cmpNum, goParseFloat, bind, Except.bind, pure, Except.pure, hsym]
-
-/-- string vs number, `!=`, under the same symmetry -/
-theorem cell_strNum_ne_of_symm (d : Doc) (s : String) (b : F)
-    (hsym : NumAlg.eq b (Spec.strToNum s : F) = NumAlg.eq (Spec.strToNum s : F) b) :
-    cmpM d .ne (.str s) (.num b) = .ok (Spec.compare d .ne (.str s) (.num b)) := by
-  simp [cmpM, xtypeOf, Spec.compare, Spec.cmpAtom, Spec.CmpOp.isRel, Spec.toNum,
-    Spec.cmpNum, goParseFloat, bind, Except.bind, pure, Except.pure, NumAlg.ne, hsym]
+    cmpM (F := F) d .ne (.str s) (.nodes l) = .ok (Spec.compare (F := F) d .ne (.str s) (.nodes l)) :=
+  Theorems.C07.cell_strSet d .ne s l
 
 /-- the model's truth conversion on an embedded oracle value is `boolean()` -/
 theorem asBool_emb (v : Spec.Value F) : asBoolM (emb v) = .ok (Spec.toBool v) := by
   cases v <;> simp [emb, asBoolM, Spec.toBool]
 
+/-- **boolean vs anything, all six operators** (after the repair of `cmpBooleanAny`): for `=` and
+`!=` the other operand is converted with `boolean()`; for the relational operators both operands
+are numbers — `0`/`1` for the boolean, the number itself, `number()` of a string, `0`/`1` of
+`boolean()` of a node-set.  (Before the repair the relational operators converted the other operand
+with `boolean()` as well: `true() < 2` was false.) -/
+theorem cell_boolAny (d : Doc) (op : Spec.CmpOp) (a : Bool) (v : Spec.Value F) :
+    cmpM d op (.bool a) (emb v) = .ok (Spec.compare d op (.bool a) v) := by
+  cases v <;> cases op <;> simp [emb, cmpM, xtypeOf, asBoolM, cmpBoolF, numBesideBoolM, goParseFloat,
+    Spec.compare, Spec.cmpAtom, Spec.CmpOp.isRel, Spec.toBool, Spec.toNum, bind, Except.bind, pure,
+    Except.pure, bne]
+
+/-- **anything vs boolean, all six operators** (after the repair of `cmpAnyBoolean`) -/
+theorem cell_anyBool (d : Doc) (op : Spec.CmpOp) (v : Spec.Value F) (b : Bool) :
+    cmpM d op (emb v) (.bool b) = .ok (Spec.compare d op v (.bool b)) := by
+  cases v <;> cases op <;> simp [emb, cmpM, xtypeOf, asBoolM, cmpBoolF, numBesideBoolM, goParseFloat,
+    Spec.compare, Spec.cmpAtom, Spec.CmpOp.isRel, Spec.toBool, Spec.toNum, bind, Except.bind, pure,
+    Except.pure, bne]
+
 /-- boolean vs anything, `=`: the other operand is converted with `boolean()` -/
 theorem cell_boolAny_eq (d : Doc) (a : Bool) (v : Spec.Value F) :
-    cmpM d .eq (.bool a) (emb v) = .ok (Spec.compare d .eq (.bool a) v) := by
-  cases v <;> simp [emb, cmpM, xtypeOf, asBoolM, cmpBoolF, Spec.compare, Spec.cmpAtom,
-    Spec.CmpOp.isRel, Spec.toBool, bind, Except.bind, pure, Except.pure]
+    cmpM d .eq (.bool a) (emb v) = .ok (Spec.compare d .eq (.bool a) v) := cell_boolAny d .eq a v
 
 /-- boolean vs anything, `!=` -/
 theorem cell_boolAny_ne (d : Doc) (a : Bool) (v : Spec.Value F) :
-    cmpM d .ne (.bool a) (emb v) = .ok (Spec.compare d .ne (.bool a) v) := by
-  cases v <;> simp [emb, cmpM, xtypeOf, asBoolM, cmpBoolF, Spec.compare, Spec.cmpAtom,
-    Spec.CmpOp.isRel, Spec.toBool, bind, Except.bind, pure, Except.pure, bne]
+    cmpM d .ne (.bool a) (emb v) = .ok (Spec.compare d .ne (.bool a) v) := cell_boolAny d .ne a v
 
 /-- anything vs boolean, `=` -/
 theorem cell_anyBool_eq (d : Doc) (v : Spec.Value F) (b : Bool) :
-    cmpM d .eq (emb v) (.bool b) = .ok (Spec.compare d .eq v (.bool b)) := by
-  cases v <;> simp [emb, cmpM, xtypeOf, asBoolM, cmpBoolF, Spec.compare, Spec.cmpAtom,
-    Spec.CmpOp.isRel, Spec.toBool, bind, Except.bind, pure, Except.pure]
+    cmpM d .eq (emb v) (.bool b) = .ok (Spec.compare d .eq v (.bool b)) := cell_anyBool d .eq v b
 
 /-- anything vs boolean, `!=` -/
 theorem cell_anyBool_ne (d : Doc) (v : Spec.Value F) (b : Bool) :
-    cmpM d .ne (emb v) (.bool b) = .ok (Spec.compare d .ne v (.bool b)) := by
-  cases v <;> simp [emb, cmpM, xtypeOf, asBoolM, cmpBoolF, Spec.compare, Spec.cmpAtom,
-    Spec.CmpOp.isRel, Spec.toBool, bind, Except.bind, pure, Except.pure, bne]
+    cmpM d .ne (emb v) (.bool b) = .ok (Spec.compare d .ne v (.bool b)) := cell_anyBool d .ne v b
 
 /-- boolean vs boolean, all six operators (relational ones on 0/1) -/
 theorem cell_boolBool (d : Doc) (op : Spec.CmpOp) (a b : Bool) :
-    cmpM (F := F) d op (.bool a) (.bool b) = .ok (Spec.compare (F := F) d op (.bool a) (.bool b)) := by
-  cases op <;> simp [cmpM, xtypeOf, asBoolM, cmpBoolF, Spec.compare, Spec.cmpAtom,
-    Spec.CmpOp.isRel, Spec.toBool, Spec.toNum, bind, Except.bind, pure, Except.pure, bne]
+    cmpM (F := F) d op (.bool a) (.bool b) = .ok (Spec.compare (F := F) d op (.bool a) (.bool b)) :=
+  cell_boolAny d op a (.bool b)
 
 /-- boolean vs node-set, all six operators: the node-set is converted with `boolean()` first -/
 theorem cell_boolSet (d : Doc) (op : Spec.CmpOp) (a : Bool) (l : List Ref) :
-    cmpM (F := F) d op (.bool a) (.nodes l) = .ok (Spec.compare (F := F) d op (.bool a) (.nodes l)) := by
-  cases op <;> simp [cmpM, xtypeOf, asBoolM, cmpBoolF, Spec.compare, Spec.cmpAtom,
-    Spec.CmpOp.isRel, Spec.toBool, Spec.toNum, bind, Except.bind, pure, Except.pure, bne]
+    cmpM (F := F) d op (.bool a) (.nodes l) = .ok (Spec.compare (F := F) d op (.bool a) (.nodes l)) :=
+  cell_boolAny d op a (.nodes l)
 
 /-- node-set vs boolean, all six operators -/
 theorem cell_setBool (d : Doc) (op : Spec.CmpOp) (l : List Ref) (b : Bool) :
-    cmpM (F := F) d op (.nodes l) (.bool b) = .ok (Spec.compare (F := F) d op (.nodes l) (.bool b)) := by
-  cases op <;> simp [cmpM, xtypeOf, asBoolM, cmpBoolF, Spec.compare, Spec.cmpAtom,
-    Spec.CmpOp.isRel, Spec.toBool, Spec.toNum, bind, Except.bind, pure, Except.pure, bne]
+    cmpM (F := F) d op (.nodes l) (.bool b) = .ok (Spec.compare (F := F) d op (.nodes l) (.bool b)) :=
+  cell_anyBool d op (.nodes l) b
 
 /-! ## 2. `and` / `or` / `not()` / `boolean()` at the `evalP` level -/
 
@@ -402,93 +382,44 @@ theorem vrel_bool (m : MVal F) (v : Spec.Value F) (h : VRel m v) (hk : vkind v =
   cases m <;> simp only [VRel] at h
   subst h; exact ⟨_, rfl, rfl⟩
 
-/-- the type pairs on which the model's comparison cell is the oracle's: the seven pairs of the
-property (number/number, node-set/number, number/node-set for all six operators; string/string,
-node-set/string, string/node-set, node-set/node-set for `=` `!=`), plus number/string (all six),
-boolean/boolean, boolean/node-set, node-set/boolean (all six) and boolean/number, boolean/string,
-number/boolean, string/boolean (`=` `!=`).  Not in the table: string/number (operands swapped in
-`cmpStringNumeric`), the relational operators on strings (the model compares strings
-lexicographically) and on a boolean with a number or string. -/
-def pairOK (cop : Spec.CmpOp) : Kind → Kind → Bool
-  | .num, .num => true
-  | .num, .set => true
-  | .num, .str => true
-  | .num, .bool => !cop.isRel
-  | .set, .num => true
-  | .set, .set => !cop.isRel
-  | .set, .str => !cop.isRel
-  | .set, .bool => true
-  | .str, .num => false
-  | .str, .set => !cop.isRel
-  | .str, .str => !cop.isRel
-  | .str, .bool => !cop.isRel
-  | .bool, .num => !cop.isRel
-  | .bool, .set => true
-  | .bool, .str => !cop.isRel
-  | .bool, .bool => true
-
 open XPathV.Theorems.C07 in
-/-- all the cells in one statement -/
-theorem cmpM_emb_cell (d : Doc) (cop : Spec.CmpOp) (va vb : Spec.Value F)
-    (hk : pairOK cop (vkind va) (vkind vb) = true) :
+/-- **all the cells in one statement, no exception**: on every pair of value types and for all six
+operators the model's comparison of two embedded oracle values is XPath's `compare`.  (Before the
+repairs of `cmpStringStringF`, `cmpNodeSetString`, `cmpStringNumeric`, `cmpBooleanAny` and
+`cmpAnyBoolean` this carried a table `pairOK` of admissible type pairs: string/number was out, and so
+were the relational operators on two strings, on a node-set with a string or a node-set, and on a
+boolean with a number or a string.) -/
+theorem cmpM_emb_cell (d : Doc) (cop : Spec.CmpOp) (va vb : Spec.Value F) :
     cmpM d cop (emb va) (emb vb) = .ok (Spec.compare d cop va vb) := by
   cases va with
+  | bool a => exact cell_boolAny d cop a vb
   | nodes la =>
     cases vb with
-    | nodes lb => cases cop with
-      | eq => exact cell_setSet_eq d _ _
-      | ne => exact cell_setSet_ne d _ _
-      | _ => exact absurd hk (by simp [pairOK, vkind, Spec.CmpOp.isRel])
+    | nodes lb => exact cell_setSet d _ _ _
     | bool b => exact cell_setBool d _ _ _
     | num y => exact cell_setNum d _ _ _
-    | str s => cases cop with
-      | eq => exact cell_setStr_eq d _ _
-      | ne => exact cell_setStr_ne d _ _
-      | _ => exact absurd hk (by simp [pairOK, vkind, Spec.CmpOp.isRel])
-  | bool a =>
-    cases vb with
-    | nodes lb => exact cell_boolSet d _ _ _
-    | bool b => exact cell_boolBool d _ _ _
-    | num y => cases cop with
-      | eq => exact cell_boolAny_eq d a (.num y)
-      | ne => exact cell_boolAny_ne d a (.num y)
-      | _ => exact absurd hk (by simp [pairOK, vkind, Spec.CmpOp.isRel])
-    | str s => cases cop with
-      | eq => exact cell_boolAny_eq d a (.str s)
-      | ne => exact cell_boolAny_ne d a (.str s)
-      | _ => exact absurd hk (by simp [pairOK, vkind, Spec.CmpOp.isRel])
+    | str s => exact cell_setStr d _ _ _
   | num x =>
     cases vb with
     | nodes lb => exact cell_numSet d _ _ _
-    | bool b => cases cop with
-      | eq => exact cell_anyBool_eq d (.num x) b
-      | ne => exact cell_anyBool_ne d (.num x) b
-      | _ => exact absurd hk (by simp [pairOK, vkind, Spec.CmpOp.isRel])
+    | bool b => exact cell_anyBool d cop (.num x) b
     | num y => exact cell_numNum d _ _ _
     | str s => exact cell_numStr d _ _ _
   | str x =>
     cases vb with
-    | nodes lb => cases cop with
-      | eq => exact cell_strSet_eq d _ _
-      | ne => exact cell_strSet_ne d _ _
-      | _ => exact absurd hk (by simp [pairOK, vkind, Spec.CmpOp.isRel])
-    | bool b => cases cop with
-      | eq => exact cell_anyBool_eq d (.str x) b
-      | ne => exact cell_anyBool_ne d (.str x) b
-      | _ => exact absurd hk (by simp [pairOK, vkind, Spec.CmpOp.isRel])
-    | num y => exact absurd hk (by simp [pairOK, vkind])
-    | str s => cases cop with
-      | eq => exact cell_strStr_eq d _ _
-      | ne => exact cell_strStr_ne d _ _
-      | _ => exact absurd hk (by simp [pairOK, vkind, Spec.CmpOp.isRel])
+    | nodes lb => exact cell_strSet d _ _ _
+    | bool b => exact cell_anyBool d cop (.str x) b
+    | num y => exact cell_strNum d _ _ _
+    | str s => exact cell_strStr d _ _ _
 
-/-- the comparison of two model values that represent oracle values is the oracle's comparison -/
+/-- the comparison of two model values that represent oracle values is the oracle's comparison —
+every pair of types, all six operators -/
 theorem cmpM_vrel (d : Doc) (cop : Spec.CmpOp) (m n : MVal F) (va vb : Spec.Value F)
-    (hm : VRel m va) (hn : VRel n vb) (hk : pairOK cop (vkind va) (vkind vb) = true) :
+    (hm : VRel m va) (hn : VRel n vb) :
     cmpM d cop m n = .ok (Spec.compare d cop va vb) := by
-  obtain ⟨va', rfl, hka, hal, _, _⟩ := vrel_emb d m va hm
-  obtain ⟨vb', rfl, hkb, _, hbr, _⟩ := vrel_emb d n vb hn
-  rw [cmpM_emb_cell d cop va' vb' (by rw [hka, hkb]; exact hk), hal, hbr]
+  obtain ⟨va', rfl, _, hal, _, _⟩ := vrel_emb d m va hm
+  obtain ⟨vb', rfl, _, _, hbr, _⟩ := vrel_emb d n vb hn
+  rw [cmpM_emb_cell d cop va' vb', hal, hbr]
 
 /-! ### the value of a path plan -/
 
@@ -568,13 +499,12 @@ theorem spec_cmp (d : Doc) (op : String) (cop : Spec.CmpOp) (hop : Spec.CmpOp.of
     simp only [Spec.CmpOp.ofString, Option.some.injEq] at hop <;> subst hop <;>
     simp [Spec.eval, ha, hb, bind, Except.bind, Spec.Res.value, Spec.CmpOp.ofString]
 
-/-- a comparison node over two operands whose plans compute the oracle's values, on a type pair of
-the table: the `.logical` plan yields exactly `Spec.compare` of the oracle's operand values, which
-is the oracle's value of the comparison expression -/
+/-- a comparison node over two operands whose plans compute the oracle's values — of any two kinds,
+any of the six operators: the `.logical` plan yields exactly `Spec.compare` of the oracle's operand
+values, which is the oracle's value of the comparison expression -/
 theorem sem_cmp_explicit (d : Doc) (cfg : ECfg) (c : Ref) (op : String) (cop : Spec.CmpOp)
     (hop : Spec.CmpOp.ofString op = some cop) (ka kb : Kind) (ql qr : Plan) (a b : Ast)
-    (ha : Sem (F := F) d cfg c ka ql a) (hb : Sem (F := F) d cfg c kb qr b)
-    (hk : pairOK cop ka kb = true) :
+    (ha : Sem (F := F) d cfg c ka ql a) (hb : Sem (F := F) d cfg c kb qr b) :
     ∃ (va vb : Spec.Value F) (ga gb : Option (List (List Ref))),
       Spec.eval (F := F) d a ⟨c, 1, 1⟩ = .ok (.val va ga) ∧
       Spec.eval (F := F) d b ⟨c, 1, 1⟩ = .ok (.val vb gb) ∧
@@ -583,15 +513,14 @@ theorem sem_cmp_explicit (d : Doc) (cfg : ECfg) (c : Ref) (op : String) (cop : S
   obtain ⟨ma, va, ga, hea, hsa, hra, hka⟩ := ha
   obtain ⟨mb, vb, gb, heb, hsb, hrb, hkb⟩ := hb
   refine ⟨va, vb, ga, gb, hsa, hsb, ?_, spec_cmp d op cop hop a b _ va vb ga gb hsa hsb⟩
-  have hcm := cmpM_vrel d cop ma mb va vb hra hrb (by rw [hka, hkb]; exact hk)
+  have hcm := cmpM_vrel d cop ma mb va vb hra hrb
   simp only [evalP, hea, heb, bind, Except.bind, logicalVal, hop, hcm]
 
 theorem sem_cmp (d : Doc) (cfg : ECfg) (c : Ref) (op : String) (cop : Spec.CmpOp)
     (hop : Spec.CmpOp.ofString op = some cop) (ka kb : Kind) (ql qr : Plan) (a b : Ast)
-    (ha : Sem (F := F) d cfg c ka ql a) (hb : Sem (F := F) d cfg c kb qr b)
-    (hk : pairOK cop ka kb = true) :
+    (ha : Sem (F := F) d cfg c ka ql a) (hb : Sem (F := F) d cfg c kb qr b) :
     Sem (F := F) d cfg c .bool (.logical op ql qr) (.oper op a b) := by
-  obtain ⟨va, vb, ga, gb, _, _, h1, h2⟩ := sem_cmp_explicit d cfg c op cop hop ka kb ql qr a b ha hb hk
+  obtain ⟨va, vb, ga, gb, _, _, h1, h2⟩ := sem_cmp_explicit d cfg c op cop hop ka kb ql qr a b ha hb
   exact ⟨_, _, none, h1, h2, rfl, rfl⟩
 
 /-- `or` over two operands of the fragment (any kinds): the oracle's value, with the oracle's
@@ -731,27 +660,14 @@ def opPlan : Ast → Plan
   | .str s => .constStr s
   | p => naivePlan p
 
-/-- the seven type pairs the property lists: number/number, node-set/number, number/node-set (all
-six operators); string/string, node-set/string, string/node-set, node-set/node-set (`=`, `!=`) -/
-def pairC07 (cop : Spec.CmpOp) : Kind → Kind → Bool
-  | .num, .num => true
-  | .set, .num => true
-  | .num, .set => true
-  | .str, .str => !cop.isRel
-  | .set, .str => !cop.isRel
-  | .str, .set => !cop.isRel
-  | .set, .set => !cop.isRel
-  | _, _ => false
-
-theorem pairC07_ok (cop : Spec.CmpOp) (ka kb : Kind) (h : pairC07 cop ka kb = true) :
-    pairOK cop ka kb = true := by
-  cases ka <;> cases kb <;> simp_all [pairC07, pairOK]
-
 /-- comparison expressions of the property: `a op b`, `op` one of the six comparison operators,
-`a`, `b` operands of one of the seven type pairs -/
+`a`, `b` operands (number literal, string literal, path) — **every** pair of operand types, all six
+operators.  (Before the repairs of the string cells this carried the table `pairC07` of the seven
+pairs the property lists, with string/string, node-set/string, string/node-set and
+node-set/node-set restricted to `=` and `!=`.) -/
 inductive CmpExp : Ast → Prop
   | mk (op : String) (cop : Spec.CmpOp) (a b : Ast) : Spec.CmpOp.ofString op = some cop →
-      Opnd a → Opnd b → pairC07 cop (okind a) (okind b) = true → CmpExp (.oper op a b)
+      Opnd a → Opnd b → CmpExp (.oper op a b)
 
 theorem sem_opnd {d : Doc} (wf : WF d) (cfg : ECfg) (hns : cfg.nsIface = true)
     (hinj : HashInj d cfg) (c : Ref) (hc : validRef d c = true) (a : Ast) (ha : Opnd a) :
@@ -770,14 +686,14 @@ oracle's values of the operands — and that is the oracle's value of the expres
 theorem cmp_sem {d : Doc} (wf : WF d) (cfg : ECfg) (hns : cfg.nsIface = true)
     (hinj : HashInj d cfg) (c : Ref) (hc : validRef d c = true)
     (op : String) (cop : Spec.CmpOp) (a b : Ast) (hop : Spec.CmpOp.ofString op = some cop)
-    (ha : Opnd a) (hb : Opnd b) (hk : pairC07 cop (okind a) (okind b) = true) :
+    (ha : Opnd a) (hb : Opnd b) :
     ∃ (va vb : Spec.Value F) (ga gb : Option (List (List Ref))),
       Spec.eval (F := F) d a ⟨c, 1, 1⟩ = .ok (.val va ga) ∧
       Spec.eval (F := F) d b ⟨c, 1, 1⟩ = .ok (.val vb gb) ∧
       evalP (F := F) d cfg (.logical op (opPlan a) (opPlan b)) c = .ok (.bool (Spec.compare d cop va vb)) ∧
       Spec.eval (F := F) d (.oper op a b) ⟨c, 1, 1⟩ = .ok (.val (.bool (Spec.compare d cop va vb)) none) :=
   sem_cmp_explicit d cfg c op cop hop _ _ _ _ a b (sem_opnd wf cfg hns hinj c hc a ha)
-    (sem_opnd wf cfg hns hinj c hc b hb) (pairC07_ok cop _ _ hk)
+    (sem_opnd wf cfg hns hinj c hc b hb)
 
 /-- the same against the top-level oracle -/
 theorem cmp_sem_evalTop {d : Doc} (wf : WF d) (cfg : ECfg) (hns : cfg.nsIface = true)
@@ -786,17 +702,19 @@ theorem cmp_sem_evalTop {d : Doc} (wf : WF d) (cfg : ECfg) (hns : cfg.nsIface = 
       evalP (F := F) d cfg (.logical op (opPlan a) (opPlan b)) c = .ok (.bool t) ∧
       Spec.evalTop (F := F) d e c = .ok (.bool t) := by
   cases he with
-  | mk op cop a b hop ha hb hk =>
-    obtain ⟨va, vb, ga, gb, _, _, h1, h2⟩ := cmp_sem (F := F) wf cfg hns hinj c hc op cop a b hop ha hb hk
+  | mk op cop a b hop ha hb =>
+    obtain ⟨va, vb, ga, gb, _, _, h1, h2⟩ := cmp_sem (F := F) wf cfg hns hinj c hc op cop a b hop ha hb
     exact ⟨op, a, b, _, rfl, h1, by simp [Spec.evalTop, h2, bind, Except.bind, pure, Except.pure, Spec.Res.value]⟩
 
 /-! ### closure under `and` / `or` / `not()` / `boolean()` / `true()` / `false()` / parentheses -/
 
 /-- the expression fragment, indexed by the static type of the expression, over two leaf fragments
 `NP` (number-valued expressions) and `SP` (string-valued expressions).  Comparison nodes take *any*
-two expressions of the fragment as operands, on the type pairs of `pairOK` (which contains the
-property's seven pairs); `and`, `or`, `boolean()` and — after the repair of `notFunc` — `not()`
-take an operand of **any** type. -/
+two expressions of the fragment as operands — **every** pair of the four types (number, string,
+node-set, boolean), all six operators: after the repairs of `cmpStringStringF`, `cmpNodeSetString`,
+`cmpStringNumeric`, `cmpBooleanAny` and `cmpAnyBoolean` no type pair is excluded (the constructor
+used to carry `pairOK cop ka kb = true`); `and`, `or`, `boolean()` and — after the repair of
+`notFunc` — `not()` take an operand of **any** type. -/
 inductive XExpG (NP SP : Ast → Prop) : Kind → Ast → Prop
   | num (lex : String) : XExpG NP SP .num (.num lex)
   | str (s : String) : XExpG NP SP .str (.str s)
@@ -806,7 +724,7 @@ inductive XExpG (NP SP : Ast → Prop) : Kind → Ast → Prop
   /-- a string-valued expression of the leaf fragment (string functions) -/
   | strE (e : Ast) : SP e → XExpG NP SP .str e
   | cmp (op : String) (cop : Spec.CmpOp) (ka kb : Kind) (a b : Ast) :
-      Spec.CmpOp.ofString op = some cop → XExpG NP SP ka a → XExpG NP SP kb b → pairOK cop ka kb = true →
+      Spec.CmpOp.ofString op = some cop → XExpG NP SP ka a → XExpG NP SP kb b →
       XExpG NP SP .bool (.oper op a b)
   | and (ka kb : Kind) (a b : Ast) : XExpG NP SP ka a → XExpG NP SP kb b → XExpG NP SP .bool (.oper "and" a b)
   | or (ka kb : Kind) (a b : Ast) : XExpG NP SP ka a → XExpG NP SP kb b → XExpG NP SP .bool (.oper "or" a b)
@@ -837,7 +755,7 @@ theorem XExpG.mono {NP NP' SP SP' : Ast → Prop} (hn : ∀ e, NP e → NP' e) (
   | path p hp => exact .path p hp
   | numE e he => exact .numE e (hn e he)
   | strE e he => exact .strE e (hs e he)
-  | cmp op cop ka kb a b hop _ _ hk iha ihb => exact .cmp op cop ka kb a b hop iha ihb hk
+  | cmp op cop ka kb a b hop _ _ iha ihb => exact .cmp op cop ka kb a b hop iha ihb
   | and ka kb a b _ _ iha ihb => exact .and ka kb a b iha ihb
   | or ka kb a b _ _ iha ihb => exact .or ka kb a b iha ihb
   | not ka a pfx _ ih => exact .not ka a pfx ih
@@ -855,8 +773,8 @@ theorem XExpG.of_opnd {NP SP : Ast → Prop} (a : Ast) (h : Opnd a) : XExpG NP S
 /-- the property's comparison expressions are in the fragment -/
 theorem XExpG.of_cmpExp {NP SP : Ast → Prop} (e : Ast) (h : CmpExp e) : XExpG NP SP .bool e := by
   cases h with
-  | mk op cop a b hop ha hb hk =>
-    exact .cmp op cop _ _ a b hop (.of_opnd a ha) (.of_opnd b hb) (pairC07_ok cop _ _ hk)
+  | mk op cop a b hop ha hb =>
+    exact .cmp op cop _ _ a b hop (.of_opnd a ha) (.of_opnd b hb)
 
 /-- boolean combinations of the property's comparison expressions (the closure the property asks
 for), as a sub-fragment of `XExp .bool` -/
@@ -926,8 +844,8 @@ theorem xexpG_sem {d : Doc} (wf : WF d) (cfg : ECfg) (hns : cfg.nsIface = true)
   | path p hp => rw [xplan_path p hp]; exact sem_path_naive wf cfg hns hinj c hc p hp
   | numE e he => exact hN e he
   | strE e he => exact hS e he
-  | cmp op cop ka kb a b hop _ _ hk iha ihb =>
-    rw [xplan_cmp op cop hop]; exact sem_cmp d cfg c op cop hop ka kb _ _ a b iha ihb hk
+  | cmp op cop ka kb a b hop _ _ iha ihb =>
+    rw [xplan_cmp op cop hop]; exact sem_cmp d cfg c op cop hop ka kb _ _ a b iha ihb
   | and ka kb a b _ _ iha ihb => exact sem_and d cfg c ka kb _ _ a b iha ihb
   | or ka kb a b _ _ iha ihb => exact sem_or d cfg c ka kb _ _ a b iha ihb
   | not ka a pfx _ ih => exact sem_not d cfg c ka _ a pfx .nil ih
@@ -1173,11 +1091,11 @@ theorem build_xexpG {d : Doc} (wf : WF d) (cfg : ECfg) (hns : cfg.nsIface = true
   | path p hp => intro st o hb; exact sem_path_build wf cfg hns hinj c hc regexOk limit sdf p hp st o hb
   | numE e he => exact hN e he
   | strE e he => exact hS e he
-  | cmp op cop ka kb a b hop _ _ hk iha ihb =>
+  | cmp op cop ka kb a b hop _ _ iha ihb =>
     intro st o hb
     obtain ⟨st1, lo, ro, hlo, hro, hq⟩ := build_oper_inv _ _ _ _ _ _ _ _ _ _ hb
     rw [hq, build_cmp_q op cop hop]
-    exact sem_cmp d cfg c op cop hop ka kb _ _ a b (iha _ _ hlo) (ihb _ _ hro) hk
+    exact sem_cmp d cfg c op cop hop ka kb _ _ a b (iha _ _ hlo) (ihb _ _ hro)
   | and ka kb a b _ _ iha ihb =>
     intro st o hb
     obtain ⟨st1, lo, ro, hlo, hro, hq⟩ := build_oper_inv _ _ _ _ _ _ _ _ _ _ hb
@@ -1275,7 +1193,7 @@ theorem build_bool_expr_sem_full {d : Doc} (wf : WF d) (cfg : ECfg) (hns : cfg.n
     (fun e he st o hb => sem_strE_build d cfg c regexOk limit true sdf e he st o hb) .bool e h st o hb)
 
 /-- the same for the property's own fragment (`BExp`: comparison expressions over literals and
-predicate-free paths on the seven type pairs, closed under `and`/`or`/`not()`/`boolean()`) -/
+predicate-free paths on every pair of operand types and all six operators, closed under `and`/`or`/`not()`/`boolean()`) -/
 theorem build_bexp_sem {d : Doc} (wf : WF d) (cfg : ECfg) (hns : cfg.nsIface = true)
     (hinj : HashInj d cfg) (c : Ref) (hc : validRef d c = true) (regexOk : RegexOk) (limit : Nat)
     (sdf : Bool) (e : Ast) (h : BExp e) (st : BState) (o : BOut)
@@ -1288,7 +1206,7 @@ theorem build_bexp_sem {d : Doc} (wf : WF d) (cfg : ECfg) (hns : cfg.nsIface = t
 theorem build_cmp_sem {d : Doc} (wf : WF d) (cfg : ECfg) (hns : cfg.nsIface = true)
     (hinj : HashInj d cfg) (c : Ref) (hc : validRef d c = true) (regexOk : RegexOk) (limit : Nat)
     (sdf : Bool) (op : String) (cop : Spec.CmpOp) (a b : Ast) (hop : Spec.CmpOp.ofString op = some cop)
-    (ha : Opnd a) (hb : Opnd b) (hk : pairC07 cop (okind a) (okind b) = true)
+    (ha : Opnd a) (hb : Opnd b)
     (st : BState) (o : BOut) (hbd : build regexOk limit true sdf (.oper op a b) {} st = .ok o) :
     ∃ (va vb : Spec.Value F) (ga gb : Option (List (List Ref))),
       Spec.eval (F := F) d a ⟨c, 1, 1⟩ = .ok (.val va ga) ∧
@@ -1300,7 +1218,6 @@ theorem build_cmp_sem {d : Doc} (wf : WF d) (cfg : ECfg) (hns : cfg.nsIface = tr
   exact sem_cmp_explicit d cfg c op cop hop _ _ _ _ a b
     (build_xexp wf cfg hns hinj c hc regexOk limit sdf _ a (XExp.of_opnd a ha) _ _ hlo)
     (build_xexp wf cfg hns hinj c hc regexOk limit sdf _ b (XExp.of_opnd b hb) _ _ hro)
-    (pairC07_ok cop _ _ hk)
 
 end XPathV.CmpSem
 
